@@ -17,6 +17,9 @@ Decides, from the MIR of the current tree:
   DESCEND    DatumSerializer constructions take their node from the reviewed origins
   FREEZEMAP  the node kind dispatched on is built at freeze from a logical type only over the primitive the spec lets
              it annotate (duration: fixed of size 12 exactly), else from the plain type (shared with C01, C03)
+             ... and the rescaled number is compared with the original: scaling down rounds    (found F22)
+  RANGE      no unreviewed narrowing `as` cast on the way to the wire; f64 -> f32 narrowing is reported unless compared
+             back with the original                                                            (F23, known finding)
   POOLCLEAN  pooled scratch buffers come back empty (shared with C13 / C14: a stale buffer prefixes a later Ok encoding)
 It does NOT decide byte equality with a reference encoder.
 """
